@@ -26,7 +26,10 @@ import (
 //   cs_test.go    handler.ContentSecurityHandler (strict / non-strict; timestamp tolerance
 //                 against the virtual clock; encrypted bodies) and handler.CryptionHandler
 //   engine_test.go the same gates as the REST engine wires them for 1-4 route groups on one server
-//                 (rest.WithJwt / WithJwtTransition / WithSignature, Server.Use, callbacks)
+//                 (rest.WithJwt / WithJwtTransition / WithSignature, Server.Use, callbacks); the groups'
+//                 jwt settings are drawn independently, partly from a shared pool of secrets
+//   handler_test.go how the protected handlers treat the request body (delayed / chunked / partial
+//                 reads, closes) and the per-request body oracle; bursts of overlapping requests
 //
 // Every verdict is computed by an independent verifier from the request *as sent* (final
 // header strings, url, body bytes) and the virtual instants of the call; the way a request
